@@ -116,6 +116,16 @@ class HarnessError(Exception):
     pass
 
 
+FLAKY_NOTE = ("observed once; when Hypothesis re-executed the same case in the same process the violation did not recur (the first "
+              "execution left process-global state behind, which is what the violation is about); the replay file runs in a fresh process")
+
+
+def _is_flaky(exc):
+    """Hypothesis reports a failure that does not recur on re-execution as Flaky / FlakyFailure (an exception group)"""
+    names = {c.__name__ for c in type(exc).__mro__}
+    return bool(names & {"Flaky", "FlakyFailure", "FlakyReplay", "FlakyStrategyDefinition"}) and "FlakyStrategyDefinition" not in names
+
+
 def _lib_frame(tb):
     """innermost traceback frame inside the tree under test, or None"""
     found = None
@@ -200,6 +210,12 @@ def run_hyp(pid, part, n, seed_value, stats, known, found):
             body()
         except ViolationFound:
             found.append({"part": part.name, "case": last["case"], **last["v"].as_dict()})
+            excluded.add(last["v"].key)
+            continue
+        except BaseException as exc:  # noqa
+            if not _is_flaky(exc) or "v" not in last:
+                raise
+            found.append({"part": part.name, "case": last["case"], **last["v"].as_dict(), "note": FLAKY_NOTE})
             excluded.add(last["v"].key)
             continue
         return
@@ -307,6 +323,12 @@ def run_machine(pid, part, n, steps, seed_value, stats, known, found):
             run_state_machine_as_test(seed(seed_value)(M), settings=_settings(n, steps))
         except ViolationFound:
             found.append({"part": part.name, "case": last["case"], **last["v"].as_dict()})
+            excluded.add(last["v"].key)
+            continue
+        except BaseException as exc:  # noqa
+            if not _is_flaky(exc) or "v" not in last:
+                raise
+            found.append({"part": part.name, "case": last["case"], **last["v"].as_dict(), "note": FLAKY_NOTE})
             excluded.add(last["v"].key)
             continue
         return
